@@ -234,8 +234,14 @@ pub fn check(ctx: &mut Ctx) {
             let w = std::thread::spawn(move || {
                 let _ = stdin.write_all(&inp);
             });
+            let (done, fired) = kill_after(child.id(), 60);
             let out = child.wait_with_output();
+            done.store(true, std::sync::atomic::Ordering::SeqCst);
             let _ = w.join();
+            if fired.load(std::sync::atomic::Ordering::SeqCst) {
+                ctx.case("binary", &ckey(&q, &input), "viol", serde_json::json!({"class": "", "what": "the binary did not end within 60 s of a finite input (killed)", "query": q, "input_kind": kind}));
+                continue;
+            }
             if let Ok(out) = out {
                 let err = String::from_utf8_lossy(&out.stderr).to_string();
                 let code = out.status.code();
